@@ -306,6 +306,9 @@ pub enum Op {
     UpdateBad(u64),
     /// `try_update` with the same mismatched pair.
     TryUpdateBad(u64),
+    /// A valid `update` made from a destructor while the thread unwinds from an unrelated panic
+    /// (a guard that publishes a last base time on its way out): an update like any other.
+    UpdateUnwinding(u64),
 }
 
 #[derive(Clone, Debug, PartialEq)]
@@ -494,6 +497,23 @@ pub fn run(plan: Plan, target: Target) -> Outcome {
                         OpResult::Updated
                     }
                     (None, Op::TryUpdateBad(b)) => OpResult::TryUpdated(abt.try_update((*b, VOUCH.vouch(b.wrapping_add(1))))),
+                    (None, Op::UpdateUnwinding(b)) => {
+                        struct OnTheWayOut<'a>(&'a AtomicBaseTime, u64);
+                        impl Drop for OnTheWayOut<'_> {
+                            fn drop(&mut self) {
+                                self.0.update((self.1, VOUCH.vouch(self.1)));
+                            }
+                        }
+                        let unrelated = crate::engine::panics::catch(|| {
+                            let _guard = OnTheWayOut(&abt, *b);
+                            panic!("an unrelated panic in the caller's code");
+                        });
+                        match unrelated {
+                            Err(p) if p.describe().contains("unrelated panic") => OpResult::Updated,
+                            Err(p) => OpResult::Panicked(p.describe()),
+                            Ok(()) => OpResult::Panicked("the caller's panic vanished".into()),
+                        }
+                    }
                 });
                 let r = match r {
                     Ok(r) => r,
